@@ -17,6 +17,7 @@ META = {
         " and current_state_value agree, exactly one is_active, sm.model is the user's object. "
         ""
         "the library's default model with a custom state_field; stored state together with start_value; assignment of a State of another class. "
+        "Unmapped values put into the model behind the machine's back (is_active must not read 'nothing active'), a look-alike State of another class assigned to current_state. "
         "distinct_nontrivial = distinct (value kind, model shape, state_field, write kinds used, "
         "start/stored, falsy value reached) combinations observed."
     ),
